@@ -284,3 +284,132 @@ Qed.
 
 Lemma zslice_to_nonneg {A : Type} (l : list A) (n : nat) : zslice_to l (Z.of_nat n) = firstn n l.
 Proof. unfold zslice_to. destruct (Z.ltb_spec (Z.of_nat n) 0); [lia|]. rewrite Nat2Z.id. reflexivity. Qed.
+(* ---- loop invariants, loops whose body ignores the index, loops from 1 ------------------------------------------ *)
+Lemma fold_seq_ind {S : Type} (P : nat -> S -> Prop) (F : S -> nat -> S) (n : nat) : forall (off : nat) (s : S),
+  P off s -> (forall k s, off <= k < off + n -> P k s -> P (Datatypes.S k) (F s k)) ->
+  P (off + n) (fold_left F (seq off n) s).
+Proof.
+  induction n as [|n IH]; intros off s H0 Hs.
+  - rewrite Nat.add_0_r. exact H0.
+  - cbn [seq fold_left]. replace (off + Datatypes.S n) with (Datatypes.S off + n) by lia.
+    apply IH; [apply Hs; [lia|exact H0]|]. intros k s' Hk. apply Hs. lia.
+Qed.
+
+(* the invariant rule for `for i in range(n)` *)
+Lemma for_range_ind {S : Type} (P : nat -> S -> Prop) (n : nat) (f : Z -> S -> S) (s : S) :
+  P 0 s -> (forall k s, k < n -> P k s -> P (Datatypes.S k) (f (Z.of_nat k) s)) ->
+  P n (for_range 0 (Z.of_nat n) f s).
+Proof.
+  intros H0 Hs. rewrite for_range_0. apply (fold_seq_ind P (fun s k => f (Z.of_nat k) s) n 0 s H0).
+  intros k s' Hk. apply Hs. lia.
+Qed.
+
+Lemma for_range_ext {S : Type} (n : nat) (f g : Z -> S -> S) (s : S) :
+  (forall k s, k < n -> f (Z.of_nat k) s = g (Z.of_nat k) s) ->
+  for_range 0 (Z.of_nat n) f s = for_range 0 (Z.of_nat n) g s.
+Proof.
+  intros H. rewrite !for_range_0. apply fold_left_ext_in. intros a b Hin. apply in_seq in Hin. apply H. lia.
+Qed.
+
+(* `for _ in range(n): s = F s` *)
+Fixpoint iter_l {S : Type} (n : nat) (F : S -> S) (s : S) : S :=
+  match n with O => s | Datatypes.S n' => iter_l n' F (F s) end.
+
+Lemma for_range_iter {S : Type} (n : nat) (F : S -> S) (s : S) :
+  for_range 0 (Z.of_nat n) (fun _ s => F s) s = iter_l n F s.
+Proof.
+  rewrite for_range_0. generalize 0 as off. revert s.
+  induction n as [|n IH]; intros s off; [reflexivity|]. cbn [seq fold_left iter_l]. apply IH.
+Qed.
+
+(* `for j in range(1, len(x))` reading x[j] *)
+Lemma for_range_tl {S : Type} (N : Num) (G : S -> N -> S) (x : list N) (f : Z -> S -> S) :
+  (forall k s, f (Z.of_nat (Datatypes.S k)) s = G s (vnth N x (Z.of_nat (Datatypes.S k)))) ->
+  forall s, for_range 1 (zlen x) f s = fold_left G (tl x) s.
+Proof.
+  intros H s. unfold for_range, zlen.
+  replace (Z.to_nat (Z.of_nat (length x) - 1)) with (length (tl x)) by (destruct x; cbn [length tl]; lia).
+  apply (fold_seq_list (zero N)). intros k s' Hk.
+  replace (1 + Z.of_nat k)%Z with (Z.of_nat (Datatypes.S k)) by lia.
+  rewrite H, vnth_of_nat. destruct x; [destruct k; reflexivity|reflexivity].
+Qed.
+
+(* ---- reads after writes ---------------------------------------------------------------------------------------- *)
+Lemma nth_set_nth_nat_same {A : Type} (d : A) (l : list A) (k : nat) (v : A) :
+  k < length l -> nth k (set_nth_nat l k v) d = v.
+Proof. revert k; induction l as [|a l IH]; intros [|k] H; cbn in *; try lia; [reflexivity|]. apply IH. lia. Qed.
+
+Lemma nth_set_nth_nat_other {A : Type} (d : A) (l : list A) (k j : nat) (v : A) :
+  j <> k -> nth j (set_nth_nat l k v) d = nth j l d.
+Proof. revert k j; induction l as [|a l IH]; intros [|k] [|j] H; cbn; try reflexivity; try lia. apply IH. lia. Qed.
+
+Lemma set_nth_nat_twice {A : Type} (l : list A) (k : nat) (v w : A) :
+  set_nth_nat (set_nth_nat l k v) k w = set_nth_nat l k w.
+Proof. revert k; induction l as [|a l IH]; intros [|k]; cbn; try reflexivity. f_equal. apply IH. Qed.
+
+Lemma vset_of_nat (N : Num) (x : list N) (k : nat) (v : N) : vset N x (Z.of_nat k) v = set_nth_nat x k v.
+Proof. apply zset_of_nat. Qed.
+
+Lemma iset_of_nat (x : list Z) (k : nat) (v : Z) : iset x (Z.of_nat k) v = set_nth_nat x k v.
+Proof. apply zset_of_nat. Qed.
+
+(* ---- arrays filled position by position: [filled g c total d] = g 0 .. g (c-1) followed by the initial value ------ *)
+Definition filled {A : Type} (g : nat -> A) (c total : nat) (d : A) : list A :=
+  map g (seq 0 c) ++ repeat d (total - c).
+
+Lemma filled_0 {A : Type} (g : nat -> A) (total : nat) (d : A) : filled g 0 total d = repeat d total.
+Proof. unfold filled. rewrite Nat.sub_0_r. reflexivity. Qed.
+
+Lemma filled_full {A : Type} (g : nat -> A) (total : nat) (d : A) : filled g total total d = map g (seq 0 total).
+Proof. unfold filled. rewrite Nat.sub_diag. apply app_nil_r. Qed.
+
+Lemma filled_length {A : Type} (g : nat -> A) (c total : nat) (d : A) : c <= total -> length (filled g c total d) = total.
+Proof. intros H. unfold filled. rewrite app_length, map_length, seq_length, repeat_length. lia. Qed.
+
+Lemma filled_set {A : Type} (g : nat -> A) (c total : nat) (d : A) :
+  c < total -> set_nth_nat (filled g c total d) c (g c) = filled g (Datatypes.S c) total d.
+Proof.
+  intros H. unfold filled. replace (total - c) with (Datatypes.S (total - Datatypes.S c)) by lia. cbn [repeat].
+  pose proof (set_nth_nat_app (map g (seq 0 c)) (d :: repeat d (total - Datatypes.S c)) (g c)) as E.
+  rewrite map_length, seq_length in E. rewrite E by discriminate. cbn [tl].
+  rewrite seq_S, map_app, <- app_assoc. reflexivity.
+Qed.
+
+Lemma filled_skip {A : Type} (g : nat -> A) (c total : nat) (d : A) :
+  c < total -> g c = d -> filled g c total d = filled g (Datatypes.S c) total d.
+Proof.
+  intros H E. unfold filled. replace (total - c) with (Datatypes.S (total - Datatypes.S c)) by lia. cbn [repeat].
+  rewrite seq_S, map_app, <- app_assoc. cbn [map app plus]. rewrite E. reflexivity.
+Qed.
+
+Lemma filled_nth_next {A : Type} (g : nat -> A) (c total : nat) (d : A) : nth c (filled g c total d) d = d.
+Proof.
+  unfold filled. rewrite app_nth2; rewrite map_length, seq_length; [|lia]. rewrite Nat.sub_diag.
+  destruct (total - c); reflexivity.
+Qed.
+
+Lemma map_seq_nth {A B : Type} (d : A) (h : A -> B) (x : list A) :
+  map (fun k => h (nth k x d)) (seq 0 (length x)) = map h x.
+Proof.
+  induction x as [|a x IH]; [reflexivity|]. cbn [length seq map nth]. f_equal.
+  rewrite <- seq_shift, map_map. exact IH.
+Qed.
+
+(* ---- masks, 2-d shapes ----------------------------------------------------------------------------------------- *)
+Lemma vfilter_all (N : Num) (p : N -> bool) (x : list N) : Forall (fun a => p a = true) x -> vfilter N p x = x.
+Proof. unfold vfilter. induction 1 as [|a x Ha _ IH]; [reflexivity|]. cbn [filter]. rewrite Ha, IH. reflexivity. Qed.
+
+Lemma msize_rect {A : Type} (m : list (list A)) (k : nat) :
+  Forall (fun r => length r = k) m -> msize m = Z.of_nat (length m * k).
+Proof.
+  intros H. unfold msize, zlen. destruct m as [|r m]; [reflexivity|].
+  change 0%Z with (Z.of_nat 0). rewrite znth_of_nat. cbn [nth]. inversion H; subst. lia.
+Qed.
+
+Lemma flat_div (i k j : nat) : j < k -> (i * k + j) / k = i.
+Proof. intros H. rewrite Nat.div_add_l by lia. rewrite Nat.div_small by exact H. lia. Qed.
+Lemma flat_mod (i k j : nat) : j < k -> (i * k + j) mod k = j.
+Proof. intros H. rewrite Nat.add_comm, Nat.mod_add by lia. apply Nat.mod_small. exact H. Qed.
+
+Lemma set_nth_nat_id {A : Type} (d : A) (l : list A) (k : nat) : set_nth_nat l k (nth k l d) = l.
+Proof. revert k; induction l as [|a l IH]; intros [|k]; cbn; try reflexivity. f_equal. apply IH. Qed.
